@@ -185,6 +185,39 @@ reaches no child; anything else counts as processed once and is handed to every 
 theorem translated_handleResult (σ : Env) :
     obs Trans.handleResult σ = TransExpected.handleResult σ := by
   by_cases h1 : σ "err" = 0 <;> by_cases h2 : σ "len(result)" = 0 <;> minigo_simp [TransExpected.handleResult, Trans.handleResult, h1, h2]
+
+/-- InitNodeContextHierarchy up to its loop, translated: a disabled node yields no context and **nothing at all happens for it** —
+no instantiation, no recursion into its children (the function returns before its loop) -/
+theorem translated_initHead (σ : Env) :
+    obs Trans.initHead σ = ⟨[], (if σ "nodeConfig.Disabled" ≠ 0 then some [0] else none), false⟩ := by
+  by_cases h : σ "nodeConfig.Disabled" = 0 <;> minigo_simp [Trans.initHead, h]
+
+/-- one child: its context is built by the same function and becomes a child exactly when it is not nil (= not disabled) -/
+theorem translated_initChildBody (σ : Env) :
+    obs Trans.initChildBody σ =
+      ⟨[("InitNodeContextHierarchy", [σ "childConfig"])] ++
+        (if σ "InitNodeContextHierarchy#0" ≠ 0 then [("append childContexts", [σ "InitNodeContextHierarchy#0"])] else []),
+       none, false⟩ := by
+  by_cases h : σ "InitNodeContextHierarchy#0" = 0 <;> minigo_simp [Trans.initChildBody, h]
+
+/-- the rest of InitNodeContextHierarchy (node kinds other than Unknown): the error handler — when one is configured — gets a
+context of its own built from **its own** configuration, buffer size and processor kind (F3), the node a context with its own
+configuration and buffer size, the children collected by the loop and that handler; that context is returned -/
+theorem translated_initTail (σ : Env) (hk : σ "getNodeType(nodeProcessor)#0" ≠ σ "Unknown") :
+    let r := run Trans.initTail σ
+    let hctx := "new Context {Config,Ch,StopCh,NodeProcessor,NodeType,WaitGroup,ShutdownOnce}"
+    let nctx := "new Context {Config,Ch,StopCh,NodeProcessor,NodeType,Children,ErrorHandler,WaitGroup,ShutdownOnce}"
+    r.stuck = false ∧ r.ret = some [σ (nctx ++ "#0")] ∧
+    ((∃ a, (hctx, a) ∈ r.calls) ↔ σ "nodeConfig.ErrorHandler" ≠ 0) ∧
+    (σ "nodeConfig.ErrorHandler" ≠ 0 →
+      (hctx, [σ "nodeConfig.ErrorHandler", σ "make(chan firebolt.Event, nodeConfig.ErrorHandler.BufferSize)",
+              σ "make(chan bool, nodeConfig.Workers)", σ "GetRegistry().InstantiateNode(nodeConfig.ErrorHandler.Name)#0",
+              σ "getNodeType(errorHandlerProcessor)", σ "&sync.WaitGroup{}", σ "&sync.Once{}"]) ∈ r.calls) ∧
+    (nctx, [σ "nodeConfig", σ "make(chan firebolt.Event, nodeConfig.BufferSize)", σ "make(chan bool)",
+            σ "GetRegistry().InstantiateNode(nodeConfig.Name)#0", σ "getNodeType(nodeProcessor)#0", σ "childContexts",
+            (if σ "nodeConfig.ErrorHandler" ≠ 0 then σ (hctx ++ "#0") else 0), σ "&sync.WaitGroup{}", σ "&sync.Once{}"]) ∈ r.calls := by
+  by_cases h : σ "nodeConfig.ErrorHandler" = 0 <;> minigo_simp [Trans.initTail, h, hk]
+
 end Translated
 
 theorem closure_unchanged : GeneratedClo.C01 = ExpectedClo.C01 := by rfl
